@@ -239,9 +239,13 @@ namespace bluetoe {
             static constexpr std::uint16_t value = start_handle_t::attribute_handle_value;
         };
 
+        /*
+         * the characteristics follow the service declaration and the include declarations of the service
+         */
         template < std::uint16_t StartHandle, std::uint16_t StartIndex, typename ... Options >
         using next_char_mapping = interate_characteristic_index_mappings<
-                service_start_handle< StartHandle, StartIndex, Options... >::value + 1, StartIndex + 1,
+                service_start_handle< StartHandle, StartIndex, Options... >::value + ::bluetoe::service< Options... >::number_of_service_attributes,
+                StartIndex + ::bluetoe::service< Options... >::number_of_service_attributes,
                 typename find_all_by_meta_type< characteristic_meta_type, Options... >::type >;
 
         /*
@@ -262,8 +266,8 @@ namespace bluetoe {
 
             static std::uint16_t characteristic_handle_by_index( std::size_t index )
             {
-                if ( index == StartIndex )
-                    return service_handle;
+                if ( index < StartIndex + service_t::number_of_service_attributes )
+                    return service_handle + ( index - StartIndex );
 
                 return next_char_mapping< StartHandle, StartIndex, Options... >::attribute_handle_by_index( index );
             }
@@ -272,6 +276,9 @@ namespace bluetoe {
             {
                 if ( handle <= service_handle )
                     return StartIndex;
+
+                if ( handle < service_handle + service_t::number_of_service_attributes )
+                    return StartIndex + ( handle - service_handle );
 
                 return next_char_mapping< StartHandle, StartIndex, Options... >::attribute_index_by_handle( handle );
             }
